@@ -135,7 +135,10 @@ func extract(repo string) error {
 					if c, ok := replCall(e); ok {
 						a, ok1 := strLit(c.Args[1])
 						b, ok2 := strLit(c.Args[2])
-						if ok1 && ok2 {
+						if _, isQuote := isCall(c.Args[0], "", "joinQuotes"); isQuote {
+							// quoting of an include path: must be the quoting of literal values
+							quotePairs = append(quotePairs, [2]string{a, b})
+						} else if ok1 && ok2 {
 							passes = append(passes, [2]string{a, b})
 						}
 					}
@@ -166,7 +169,7 @@ func extract(repo string) error {
 				}
 				return true
 			})
-		case "printAnnotation", "printConstTypedValue":
+		case "printAnnotation", "printConstTypedValue", "typeName":
 			ast.Inspect(fd.Body, func(n ast.Node) bool {
 				if e, ok := n.(ast.Expr); ok {
 					if c, ok := replCall(e); ok {
@@ -193,8 +196,13 @@ func extract(repo string) error {
 	if ampFrom == "" || outq == "" {
 		return fmt.Errorf("writeString / joinQuotes constants not found")
 	}
-	if len(quotePairs) != 2 || quotePairs[0] != quotePairs[1] {
-		return fmt.Errorf("printAnnotation and printConstTypedValue must quote values the same way, found %v", quotePairs)
+	if len(quotePairs) < 2 {
+		return fmt.Errorf("printAnnotation and printConstTypedValue no longer quote values through joinQuotes, found %v", quotePairs)
+	}
+	for _, q := range quotePairs {
+		if q != quotePairs[0] {
+			return fmt.Errorf("values, include paths and cpp_type must all be quoted the same way, found %v", quotePairs)
+		}
 	}
 	rules, err := pegRules(repo)
 	if err != nil {
